@@ -25,6 +25,9 @@ pub struct SimConfig {
     pub frame_budget: u64,
     /// Continue with the virtual clock as it stands (a second MainDevice on the same network)
     pub keep_clock: bool,
+    /// Round trip time of frame k is `latencies[k % len]` us when non-empty (responses then
+    /// arrive out of send order)
+    pub latencies: Vec<u64>,
 }
 
 impl Default for SimConfig {
@@ -45,6 +48,7 @@ impl Default for SimConfig {
             latency_us: 5,
             frame_budget: 2_000_000,
             keep_clock: false,
+            latencies: Vec::new(),
         }
     }
 }
@@ -128,7 +132,9 @@ pub fn run<R>(net: &NetHandle, cfg: &SimConfig, f: impl for<'a> FnOnce(&'a MainD
             }
 
             if let Some(resp) = resp {
-                in_flight.push((now + cfg.latency_us.max(1), resp));
+                let lat = if cfg.latencies.is_empty() { cfg.latency_us } else { cfg.latencies[(frames as usize - 1) % cfg.latencies.len()] };
+
+                in_flight.push((now + lat.max(1), resp));
             }
         }
 
@@ -153,5 +159,105 @@ pub fn run<R>(net: &NetHandle, cfg: &SimConfig, f: impl for<'a> FnOnce(&'a MainD
             (_, Some(tt)) => vclock::advance_to(tt),
             _ => unreachable!(),
         }
+    }
+}
+
+
+// ---------------------------------------------------------------------------------------------
+// Several tasks on one MainDevice under a generated schedule
+// ---------------------------------------------------------------------------------------------
+
+struct ChildWaker {
+    woken: std::sync::atomic::AtomicBool,
+    parent: std::sync::Mutex<Option<std::task::Waker>>,
+}
+
+impl std::task::Wake for ChildWaker {
+    fn wake(self: std::sync::Arc<Self>) {
+        self.wake_by_ref();
+    }
+
+    fn wake_by_ref(self: &std::sync::Arc<Self>) {
+        self.woken.store(true, std::sync::atomic::Ordering::SeqCst);
+
+        if let Some(p) = self.parent.lock().unwrap().as_ref() {
+            p.wake_by_ref();
+        }
+    }
+}
+
+/// Runs several futures as cooperative tasks. Each poll of this future polls exactly ONE runnable
+/// task, chosen by the next element of `choices`; the executor transmits and delivers frames in
+/// between, so the choice list is a schedule at await-point granularity.
+pub struct Scheduled<'a, T> {
+    tasks: Vec<Option<BoxFut<'a, T>>>,
+    wakers: Vec<std::sync::Arc<ChildWaker>>,
+    results: Vec<Option<T>>,
+    choices: Vec<u8>,
+    step: usize,
+    /// Schedule actually taken (task index per step), for the evidence
+    pub trace: Vec<u8>,
+}
+
+impl<'a, T> Scheduled<'a, T> {
+    pub fn new(tasks: Vec<BoxFut<'a, T>>, choices: Vec<u8>) -> Self {
+        let n = tasks.len();
+
+        Self {
+            tasks: tasks.into_iter().map(Some).collect(),
+            wakers: (0..n).map(|_| std::sync::Arc::new(ChildWaker { woken: std::sync::atomic::AtomicBool::new(true), parent: std::sync::Mutex::new(None) })).collect(),
+            results: (0..n).map(|_| None).collect(),
+            choices,
+            step: 0,
+            trace: Vec::new(),
+        }
+    }
+}
+
+impl<T: Unpin> Future for Scheduled<'_, T> {
+    type Output = Vec<T>;
+
+    fn poll(mut self: Pin<&mut Self>, cx: &mut Context<'_>) -> Poll<Vec<T>> {
+        use std::sync::atomic::Ordering::SeqCst;
+
+        let this = &mut *self;
+
+        for w in &this.wakers {
+            *w.parent.lock().unwrap() = Some(cx.waker().clone());
+        }
+
+        let runnable: Vec<usize> = (0..this.tasks.len()).filter(|i| this.tasks[*i].is_some() && this.wakers[*i].woken.load(SeqCst)).collect();
+
+        if !runnable.is_empty() {
+            let c = if this.choices.is_empty() { 0 } else { usize::from(this.choices[this.step % this.choices.len()]) };
+            let i = runnable[c % runnable.len()];
+
+            this.step += 1;
+
+            if this.trace.len() < 256 {
+                this.trace.push(i as u8);
+            }
+
+            this.wakers[i].woken.store(false, SeqCst);
+
+            let waker = std::task::Waker::from(this.wakers[i].clone());
+            let mut ccx = Context::from_waker(&waker);
+
+            if let Poll::Ready(r) = this.tasks[i].as_mut().unwrap().as_mut().poll(&mut ccx) {
+                this.results[i] = Some(r);
+                this.tasks[i] = None;
+            }
+        }
+
+        if this.tasks.iter().all(|t| t.is_none()) {
+            return Poll::Ready(this.results.iter_mut().map(|r| r.take().unwrap()).collect());
+        }
+
+        // other tasks still runnable: come back at once (after the executor moved frames)
+        if (0..this.tasks.len()).any(|i| this.tasks[i].is_some() && this.wakers[i].woken.load(SeqCst)) {
+            cx.waker().wake_by_ref();
+        }
+
+        Poll::Pending
     }
 }
